@@ -209,13 +209,19 @@ impl Storage {
                                 .map_err(map_random_access_err)?;
                         }
                     } else {
-                        storage
-                            .del(
-                                info.index,
-                                info.length.expect("When deleting, length must be given"),
-                            )
-                            .await
-                            .map_err(map_random_access_err)?;
+                        // What lies beyond the end of the store is absent already (a store
+                        // shrinks when a hole reaches its end), and the backends refuse a
+                        // delete that starts there.
+                        let store_length = storage.len().await.map_err(map_random_access_err)?;
+                        if info.index < store_length {
+                            storage
+                                .del(
+                                    info.index,
+                                    info.length.expect("When deleting, length must be given"),
+                                )
+                                .await
+                                .map_err(map_random_access_err)?;
+                        }
                     }
                 }
                 StoreInfoType::Size => {
